@@ -32,7 +32,7 @@ RULE = ("one run = 1..4 generated Intel-HEX images (1..8 data areas across 64 Ki
         "different writings each, then signed by `signonetime` twice under two different entropy streams "
         "(and once more under the first stream); non-trivial = at least one signature file was written; "
         "distinct = (#images, #areas, multi-zone, out-of-order, record-length set, eol)")
-TIERS = {"quick": {"runs": 400, "wall": 150}, "thorough": {"runs": 20000, "wall": 1800}}
+TIERS = {"quick": {"runs": 5000, "wall": 240}, "thorough": {"runs": 100000, "wall": 3000}}
 MUTANT_RUNS = 300
 MUTANT_WALL = 120
 COMPONENTS = {
